@@ -6,6 +6,7 @@ import ctypes
 import datetime
 import glob
 import os
+import time
 
 import common
 import c2gallina
@@ -50,6 +51,15 @@ RATES = [(1, 1), (100, 1), (48000, 1), (10 ** 6, 1), (200, 3), (10 ** 6, 3), (10
 CADENCES = [(1, 20), (2, 400), (3600, 1000), (86400, 3600000), (1, 1), (3600, 3600000), (10, 2500), (60, 7500)]
 EPOCHS = [315532800, 951782400, 951868800, 1500000000, 1499999999, 1709164800, 2147483648, 4102444800 - 1,
           4102444800, 1230768000, 978307200 - 1, 1583020800]
+
+
+TZS = ["UTC", "JST-9", "EST5EDT,M3.2.0,M11.1.0", "NST3:30NDT,M3.2.0,M11.1.0", "<+1245>-12:45"]
+
+
+def set_tz(tz):
+    """time zone of this process, as the C library sees it (localtime reads TZ)"""
+    os.environ["TZ"] = tz
+    time.tzset()
 
 
 def gen_cases(rng, nrand):
@@ -106,7 +116,12 @@ def run(res):
     sub = ctypes.create_string_buffer(2048)
     base = ctypes.create_string_buffer(2048)
     left, maxs = u64(), u64()
-    for c, m in zip(cases, model):
+    # the names are UTC whatever the time zone of the recording process: the cases are spread over
+    # several TZ settings (the process zone is part of "every configuration")
+    for ci, (c, m) in enumerate(zip(cases, model)):
+        if ci % 257 == 0:
+            set_tz(TZS[(ci // 257) % len(TZS)])
+            res.count("tz:" + os.environ["TZ"])
         rc = lib.shim_subdir_file(*c, sub, base, ctypes.byref(left), ctypes.byref(maxs))
         impl = [rc, left.value, maxs.value, sub.value.decode(), base.value.decode()]
         sp, F, S = spec(*c)
@@ -116,7 +131,7 @@ def run(res):
         res.count("subdir_file")
         if impl != sp:
             res.violation("subdir-file-not-exact", "digital_rf_get_subdir_file differs from the exact layout",
-                          {"fn": "subdir_file", "args": list(c)}, sp, impl)
+                          {"fn": "subdir_file", "args": list(c), "TZ": os.environ.get("TZ")}, sp, impl)
         if mm != impl:
             res.disagree("regenerated model vs compiled C: get_subdir_file", list(c), mm, impl)
     res.sample({"subdir_file(start,n,d,sc,fc,k)": list(cases[len(cases) // 2]), "spec": spec(*cases[len(cases) // 2])[0]})
@@ -147,8 +162,9 @@ def run(res):
                 Sj = sc * ((start * dd // n) // sc + j)
                 os.makedirs(os.path.join(chdir, spec(0, n, dd, sc, fc, cdiv(Sj * n, dd))[0][3]), exist_ok=True)
             res.count("recordings_with_preexisting_subdirs")
+        set_tz(rng.choice(TZS))
         common.set_current({"fn": "recording", "n": n, "d": dd, "sc": sc, "fc": fc, "start": start, "continuous": cont,
-                            "preexisting_subdirs": os.listdir(chdir)})
+                            "preexisting_subdirs": os.listdir(chdir), "TZ": os.environ["TZ"]})
         w = digital_rf.DigitalRFWriter(chdir, np.int32, sc, fc, start, n, dd, "uuid", 0, False, False, 1, cont, False)
         pos = 0
         written = {}
@@ -187,7 +203,7 @@ def run(res):
                     if (subn, bn) != want:
                         res.violation("sample-in-wrong-file", "a stored sample lies outside the file/directory the exact layout names",
                                       {"fn": "recording", "n": n, "d": dd, "sc": sc, "fc": fc, "start": start, "K": K,
-                                       "continuous": cont}, list(want), [subn, bn])
+                                       "continuous": cont, "TZ": os.environ["TZ"]}, list(want), [subn, bn])
                     if K in seen and seen[K] != f:
                         res.violation("index-in-two-files", "one sample index is stored in two files",
                                       {"fn": "recording", "n": n, "d": dd, "sc": sc, "fc": fc, "start": start, "K": K},
@@ -199,6 +215,7 @@ def run(res):
                           {"fn": "recording", "n": n, "d": dd, "sc": sc, "fc": fc, "start": start, "K": missing[0]}, "stored", "absent")
         res.count("recordings")
     res.sample({"recordings_inspected": recs})
+    set_tz("UTC")
     # ---- guard the extraction
     subc = cases[:: max(1, len(cases) // 60)][:60]
     exprs = ["(let '(rc, a, b, s1, s2) := digital_rf_get_subdir_file (%d) (%d) (%d) (%d) (%d) (%d) in "
